@@ -518,6 +518,23 @@ def add (env : Env) (subs : List Sub) (s : St) (tx : Tx) (payload : Option Nat) 
   | .panicked p => (s, .panic p)
   | .verified => phase2 env subs s tx payload
 
+/-- phase 2 when the caller's context is cancelled while the write transaction is open (e.g. inside a subscriber's Save):
+    the closure runs to its end, stoabs sees `ctx.Err()` before the commit and rolls back; the OnRollback hook reloads the
+    volatile copies (trees, atomic clock) from the unchanged disk with a fresh context. An error of the closure itself wins. -/
+def phase2Cancelled (env : Env) (subs : List Sub) (s : St) (tx : Tx) (payload : Option Nat) : St × Res Unit :=
+  if s.present tx.ref then (s, .ok ())         -- returns before anything is saved: nothing cancels, empty commit
+  else match writeBody env subs s tx payload with
+    | .ok _ => (s, .err "cancelled")
+    | .err e => (s, .err e)
+    | .panic p => (s, .panic p)
+
+def addCancelled (env : Env) (subs : List Sub) (s : St) (tx : Tx) (payload : Option Nat) : St × Res Unit :=
+  match phase1 env s tx with
+  | .present => (s, .ok ())
+  | .rejected e => (s, .err e)
+  | .panicked p => (s, .panic p)
+  | .verified => phase2Cancelled env subs s tx payload
+
 /-- bytes offered to the node: parse, then Add (what every caller of `state.Add` does first) -/
 def offer (cfg : Cfg) (b64 : String → Bool) (env : Env) (subs : List Sub) (s : St) (h : Hdr) (payload : Option Nat) :
     St × Res Unit :=
